@@ -293,7 +293,9 @@ def edge_facts(expr, truth):
     out = []
 
     def go(e, t):
-        if isinstance(e, ast.UnaryOp) and isinstance(e.op, ast.Not):
+        if isinstance(e, ast.Call) and isinstance(e.func, ast.Name) and e.func.id == "bool" and len(e.args) == 1 and not e.keywords:
+            go(e.args[0], t)          # in a test, bool(x) is x
+        elif isinstance(e, ast.UnaryOp) and isinstance(e.op, ast.Not):
             go(e.operand, not t)
         elif isinstance(e, ast.BoolOp) and isinstance(e.op, ast.And):
             if t:
